@@ -459,6 +459,12 @@ class H2Connection:
         if stream_id <= highest_stream_id:
             raise StreamIDTooLowError(stream_id, highest_stream_id)
 
+        if stream_id > self.HIGHEST_ALLOWED_STREAM_ID:
+            raise ProtocolError(
+                "Stream ID %d is above the highest allowed stream ID %d" %
+                (stream_id, self.HIGHEST_ALLOWED_STREAM_ID)
+            )
+
         if (stream_id % 2) != int(allowed_ids):
             raise ProtocolError(
                 "Invalid stream ID for peer."
